@@ -165,3 +165,73 @@ func stripPos(s string) string {
 	}
 	return strings.Join(out, " ")
 }
+
+// SCase is a model trace with a sequence of changes in one patch file.
+type SCase struct {
+	Changes []*model.Change `json:"changes"`
+	File    string          `json:"file"`
+	Tag     string          `json:"tag,omitempty"`
+}
+
+// judgeSeq compares the chained model prediction with one Apply of the
+// rendered multi-change patch.
+func judgeSeq(c *SCase, opts canon.Options) core.Outcome {
+	var ccs []*model.Compiled
+	for _, ch := range c.Changes {
+		cc, err := model.Compile(ch)
+		if err != nil {
+			panic(fmt.Sprintf("generator produced a change the model cannot parse: %v\n%s", err, ch.Render()))
+		}
+		ccs = append(ccs, cc)
+	}
+	ptext := model.RenderAll(c.Changes)
+	pf, err := patch.Parse("m.patch", []byte(ptext))
+	if err != nil {
+		return core.Outcome{Skip: "patch rejected: " + firstWords(stripPos(err.Error()), 7)}
+	}
+	sr, err := model.AllowedSeq(ccs, []byte(c.File), opts)
+	if err != nil {
+		panic(err)
+	}
+	if sr.TooMany {
+		return core.Outcome{Skip: "more optional sites than the enumeration bound"}
+	}
+	if sr.Err != nil || sr.Unparse {
+		return core.Outcome{Skip: "sequence with a failing or unparseable step (subject of C09/C07)"}
+	}
+	applied := 0
+	for _, a := range sr.Applied {
+		if a {
+			applied++
+		}
+	}
+	o := core.Outcome{Nontrivial: applied > 0, Transitions: len(c.Changes) + sr.Mandatory + sr.Optional, States: 1 + len(sr.Canon),
+		Class: fmt.Sprintf("changes-applied=%d/%d", applied, len(c.Changes))}
+	bad := func(key, format string, args ...any) core.Outcome {
+		o.Violation = fmt.Sprintf(format, args...) + "\n--- patch:\n" + ptext + "--- file:\n" + c.File
+		o.FindingKey = key
+		return o
+	}
+	out, aerr := pf.Apply("a.go", []byte(c.File))
+	if aerr != nil {
+		return bad("error-on-valid-rewrite", "Apply fails: %v\nexpected e.g.:\n%s", aerr, anyOf(sr.Canon))
+	}
+	if applied == 0 {
+		if !bytes.Equal(out, []byte(c.File)) {
+			return bad("rewrote-non-instance", "no change applies according to the model, but the output differs from the input:\n%s", out)
+		}
+		return o
+	}
+	gc, perr := canon.Source(out, opts)
+	if perr != nil {
+		return bad("unparseable-output", "output does not parse: %v\n%s", perr, out)
+	}
+	if _, ok := sr.Canon[gc]; !ok {
+		ic, _ := canon.Source([]byte(c.File), opts)
+		if gc == ic {
+			return bad("not-rewritten", "output is syntactically identical to the input although %d change(s) apply\nexpected e.g.:\n%s", applied, anyOf(sr.Canon))
+		}
+		return bad("wrong-output", "output is none of the %d permitted results\ngot:\n%s\nexpected e.g.:\n%s", len(sr.Canon), out, anyOf(sr.Canon))
+	}
+	return o
+}
